@@ -269,6 +269,8 @@ class DirectCollocation(SamplingMethod):
                 value = ca.evalf(expr)
                 # Row vector if vector
                 if value.is_column() and var.is_scalar(): value = value.T
+                # A scalar guess is repeated to fit the shape of a vector-valued state
+                if is_states and value.is_scalar() and not var.is_scalar(): value = repmat(value, var.numel(), 1)
                 if is_states:
                     if var.numel()*(self.N)==value.numel() or var.numel()*(self.N+1)==value.numel():
                         # Column k of the guess applies to all integrator points and roots of control interval k
@@ -325,8 +327,11 @@ class DirectCollocation(SamplingMethod):
             for k in range(self.N):
                 for i, e in enumerate(self.Zc[k]):
                     e_shape = e[algs[var],:].shape
-                    value = DM(opti.debug.value(hcat([self.eval_at_integrator_root(stage, expr, k, i, j) for j in range(e_shape[1])]), opti_initial))                    
-                    opti.set_initial(e[algs[var],:], value)
+                    cols = [MX(self.eval_at_integrator_root(stage, expr, k, i, j)) for j in range(e_shape[1])]
+                    # A scalar guess is repeated to fit the shape of a vector-valued algebraic variable
+                    cols = [c*DM.ones(e_shape[0],1) if c.is_scalar() else c for c in cols]
+                    value = DM(opti.debug.value(hcat(cols), opti_initial))
+                    opti.set_initial(e[algs[var],:], ca.reshape(value, e_shape[0], e_shape[1]))
 
     def to_function(self, stage, name, args, results, *margs):
         args = list(args)
